@@ -13,10 +13,10 @@ META = {
                  'region-level differential execution against the real class with injected interleavings',
     'level_text': 'C12_capacity, C12_borrow_after_shutdown_fails, C12_nonneg (with exact accounting in_flight = live + orphaned), '
                   'C12_closes_everything proved for every sequence of atomic steps of Model/Pool.v (HostConnection, repaired code); '
-                  'model tied to cassandra/pool.py by correspondence after every region. HostConnectionPool (protocol v1/v2) is NOT covered.',
+                  'model tied to cassandra/pool.py by correspondence after every region. C12v2_* : the same four statements for HostConnectionPool (protocol v1/v2), Model/PoolV2.v, same tie.',
     'level_note': 'Trusted: Coq kernel; the harness (hooking locks, fake session/cluster, socket-less Connection subclass); the atomicity '
                   'granularity (one step per lock region / unlocked statement group). Not modelled: Condition.wait blocking, wall-clock borrow '
-                  'timeouts, real threads, HostConnectionPool (v1/v2), set_keyspace_blocking failing inside _replace.',
+                  'timeouts, real threads, connect failures inside HostConnectionPool._add_conn_if_under_max, set_keyspace_blocking failing inside _replace.',
     'design_ref': 'DESIGN.md section 4 C12, Appendix A.2',
 }
 
@@ -26,7 +26,8 @@ def mine(key, theorem):
 
 
 def run(ctx):
-    pool_check.run_pool_check(ctx, 'C12', 240, 3000, 'Props/C12.v', mine)
+    pool_check.run_pool_check(ctx, 'C12', 200, 3000, 'Props/C12.v', mine)
+    pool_check.run_legacy(ctx, 160, 2500)
 
 
 def replay(ctx, rp):
